@@ -8,8 +8,8 @@ import os
 import vlib
 
 ALL_OPS = ["index", "sliced", "strided", "dropped", "taked", "rotated", "unrotated", "transposed", "reversed",
-           "diagonal", "partitioned", "chunked", "flatted", "broadcast", "paren", "halved", "sliced3", "tilde"]
-LAYOUT_CHANGING = set(ALL_OPS) - {"broadcast"}
+           "diagonal", "partitioned", "chunked", "flatted", "broadcast", "paren", "halved", "sliced3", "tilde", "range", "front", "back", "addr"]
+LAYOUT_CHANGING = set(ALL_OPS) - {"broadcast", "addr"}
 
 
 def program_line(pid, rec):
